@@ -159,6 +159,8 @@ def build(hist: list, part: Part | None) -> World:
 
 
 def task_fn(task: tuple) -> dict:
+    if task and task[0] == "threads":
+        return thread_task(task)
     prefix, depth, max_trials = task
     backends.setup_determinism()
     optuna.logging.set_verbosity(optuna.logging.ERROR)
@@ -207,6 +209,107 @@ def prefixes(plen: int, max_trials: int) -> list[list]:
     return frontier
 
 
+# ---------------------------------------------------------------------------------------------
+# two threads sharing one calculator (what optimize(n_jobs>1) does with the sampler's calculator)
+# ---------------------------------------------------------------------------------------------
+THREAD_SETUPS = {
+    # name: (params of the finished trial 0, params the RUNNING trial 1 has suggested, tell state of trial 1)
+    "running-drops-y": (("x", "y"), ("x",), "COMPLETE"),
+    "running-other-range": (("x", "y"), ("x", "y2"), "COMPLETE"),
+    "running-pruned": (("x", "y"), ("x",), "PRUNED"),
+}
+
+
+def thread_task(task: tuple) -> dict:
+    """Thread A calls calculate() while thread B finishes the RUNNING trial and calls calculate()
+    too; every schedule up to the bound (pre-emption at the lines of the calculators' modules and
+    of the in-memory storage). Afterwards one more calculate() must equal the from-scratch space."""
+    import importlib
+
+    from optuna.search_space import IntersectionSearchSpace, intersection_search_space
+    from optuna.search_space.group_decomposed import _GroupDecomposedSearchSpace
+
+    from . import thx
+    from .explore import Chooser, explore
+
+    _, setup, kind, bound = task
+    backends.setup_determinism()
+    part = Part()
+    mods = [importlib.import_module(m) for m in ("optuna.search_space.intersection", "optuna.search_space.group_decomposed",
+                                                  "optuna.storages._in_memory")]
+    thx.set_instrumented(mods)
+    done0, run1, tell_state = THREAD_SETUPS[setup]
+    outcomes: set = set()
+
+    def sugg(t: Any, n: str) -> None:
+        if n == "y2":
+            t.suggest_float("y", 0, 2)  # same name, other range
+        else:
+            t.suggest_float(n, 0, 1)
+
+    def execute(ch: Chooser) -> dict:
+        study = optuna.create_study(sampler=optuna.samplers.RandomSampler(seed=0))
+        t0 = study.ask()
+        for n in done0:
+            sugg(t0, n)
+        study.tell(t0, 0.0)
+        t1 = study.ask()
+        for n in run1:
+            sugg(t1, n)
+        calc = IntersectionSearchSpace(include_pruned=True) if kind == "isect" else _GroupDecomposedSearchSpace(include_pruned=True)
+        calc.calculate(study)
+        thx.replace_locks(study._storage)
+        sched = thx.Sched(ch, max_steps=20000)
+
+        def a() -> None:
+            sched.point("op")
+            calc.calculate(study)
+
+        def b() -> None:
+            sched.point("op")
+            study._storage.set_trial_state_values(t1._trial_id, TrialState[tell_state], [1.0] if tell_state == "COMPLETE" else None)
+            calc.calculate(study)
+
+        threads = sched.run([a, b])
+        err = [t.error for t in threads if t.error]
+        if err:
+            raise InternalError(f"driver error {err}")
+        got = calc.calculate(study)
+        if kind == "isect":
+            want = intersection_search_space(study.get_trials(deepcopy=False), include_pruned=True)
+            g, w = sorted(got.items(), key=lambda kv: kv[0]), sorted(want.items(), key=lambda kv: kv[0])
+            g, w = [(k, repr(v)) for k, v in g], [(k, repr(v)) for k, v in w]
+        else:
+            fresh = _GroupDecomposedSearchSpace(include_pruned=True)
+            w = sorted(sorted(sp) for sp in fresh.calculate(study).search_spaces)
+            g = sorted(sorted(sp) for sp in got.search_spaces)
+        return {"got": g, "want": w, "deadlock": sched.deadlock, "steps": sched.step}
+
+    def on_exec(ch: Chooser, ex: dict) -> None:
+        part.add("executions")
+        part.add("transitions", ex["steps"])
+        part.add("oracle_checks")
+        outcomes.add(repr(ex["got"]))
+        if ex["deadlock"]:
+            part.violation(f"threads|{kind}|deadlock", {"setup": setup, "schedule": ch.choices})
+        elif ex["got"] != ex["want"]:
+            # OBSERVATION, not a violation: C17 quantifies over sequential histories; it says nothing
+            # about two threads inside calculate() of ONE calculator object. On the pinned tree the
+            # two fields (search space, cursor) are read on different source lines, so a complete
+            # calculate() of another thread between the two reads pairs an old space with a new
+            # cursor (seen for the intersection calculator). Counted and sampled only.
+            part.add(f"obs_concurrent_calculate_diverges[{kind}]")
+            part.sample({"observation": "concurrent calculate() on one calculator object diverges from scratch", "setup": setup,
+                         "calculator": kind, "schedule": ch.choices, "observed": ex["got"], "expected": ex["want"]}, cap=1)
+
+    st = explore(execute, bound, on_exec, max_execs=50000)
+    if st["capped"]:
+        part.add("caps_hit")
+    part.add("states", len(outcomes))
+    part.add("thread_scenarios")
+    return part.out()
+
+
 def replay_case(raw: dict, part: Part) -> None:
     backends.setup_determinism()
     optuna.logging.set_verbosity(optuna.logging.ERROR)
@@ -225,6 +328,9 @@ def run(tier: str, replay: str | None = None) -> int:
     if tier == "thorough":
         for p in prefixes(4, 4):
             tasks.append((tuple(p), 8, 4))
+    for setup in THREAD_SETUPS:
+        for kind in ("isect", "group"):
+            tasks.append(("threads", setup, kind, 1 if tier == "quick" else 2))
     pmap(ctx, task_fn, tasks)
     ctx.cov["traces_validated_against_impl"] = ctx.cov.get("oracle_checks", 0)
     ctx.assumptions += [
